@@ -123,12 +123,13 @@ def boundary_digests(args):
         done, k = False, 0
         with warnings.catch_warnings():
             warnings.simplefilter('ignore')
-            while not done and k < 400:
+            while not done and k < variant.get('max_boundaries', 400):
                 n0 = int(s.n_like)
                 if variant.get('slices', True):
                     lim = n0 + 1
                 else:
-                    lim = np.inf
+                    # one call; if the sliced reference was cut off by the boundary cap, stop at the same count
+                    lim = variant.get('n_like_cap') or np.inf
                 with contextlib.redirect_stdout(io.StringIO()):
                     done = bool(s.run(n_like_max=lim, **runkw))
                 if int(s.n_like) == n0:
@@ -141,6 +142,7 @@ def boundary_digests(args):
                         out['observer_changed_state_at'] = k + 1
                 k += 1
                 out['digests'].append((int(s.n_like), digest(ckpt.parts(s))))
+        out['done'] = bool(done)
         out['final'] = dict(n_like=int(s.n_like), log_z=repr(s.log_z), n_eff=repr(float(s.n_eff)),
                             post=digest([np.asarray(x) for x in s.posterior()]))
         if 'scripted' in out:
